@@ -506,3 +506,15 @@ def flag_class_family():
             for q in posts:
                 out += [p + c + q, p + "{" + c + q + ",z}", p + "<" + c + ":1,2>" + q]
     return list(dict.fromkeys(out))
+
+
+def exact_repetition_family():
+    """repetitions with an EXACT count of three or more whose body's text has several fragments (names and separators in every
+    arrangement): the invariant text is the body written out n times, and joining the copies is where fragments meet"""
+    bodies = ["a/b", "a/b/c", "ab/c", "a/bc", "/a/b", "a/b/", "/a", "a/", "a", "ab", "a/b/c/d", "é/b", "a/(?i)1", "[a]/b", "{a/b}", "<a/b:1>", "a/{b}"]
+    out = []
+    for b in bodies:
+        for n in (2, 3, 4, 5):
+            core = "<%s:%d>" % (b, n)
+            out += [core, core + "/*.txt", "x/" + core if not b.startswith("/") else "x" + core, core + "y" if not b.endswith("/") else core + "y", "{" + core + "}", "<" + core + ":2>"]
+    return list(dict.fromkeys(out))
